@@ -1280,7 +1280,7 @@ class Explore:
                                 frontier.append(src_)
         tup_auto = sorted(grow) if len(grow) <= 12 else []
         self.tracked = tuple(tracked) + tuple(auto) + tuple(enum_auto) + tuple(tup_auto)
-        self._enum_tracked = set(enum_auto)
+        self._enum_tracked = set(enum_auto) | set(tracked)
         self._tuple_tracked = set(tup_auto)
         self.tries = tries
         self.try_locals = try_branch_locals(fn)
